@@ -34,7 +34,8 @@ RULE = ("random scripts N=8..40 indices; distinct = canonical script JSON; non-t
 REQUIRED_BUCKETS = ["primary-closed", "primary-raises", "primary-raises-while-fallback-in-step", "fallback-closed", "fallback-late-start", "lag:-1", "lag:0",
                     "lag:1", "lag:2", "recovery-to-primary", "both-invalid", "fallback-value-used",
                     "primary-closed-before-any-failure", "other-terms:0", "other-terms:2",
-                    "tier-B(real FallbackFormulaMetricFetcher)", "tier-B:pv-meter", "tier-B:single-grid-meter", "tier-B:single-grid-meter-reactive"]
+                    "tier-B(real FallbackFormulaMetricFetcher)", "tier-B:pv-meter", "tier-B:single-grid-meter", "tier-B:single-grid-meter-reactive",
+                    "term-with-fallback-and-nones-are-zeros"]
 REQUIRED_COUNTERS = ["outputs_decoded", "scripts_run"]
 ASSUMPTIONS = ["tier A: the fallback is a test double at the public FallbackMetricFetcher seam; tier B: real PVPowerFormula + "
                "FallbackFormulaMetricFetcher over a fake resampler (registry channels served per ComponentMetricRequest)"]
@@ -74,7 +75,7 @@ def gen(rng: Any, tier: str, i: int) -> Any:
                 "yields": [rng.choice([0, 0, 1, 3, 10]) for _ in range(N + TAIL + 3)],
                 "order": [rng.random() < 0.5 for _ in range(N + TAIL + 3)],
                 "enc": [rng.choice(["none", "nan", "inf"]) for _ in range(N)]}
-    return {"N": N, "pmask": pmask, "fmask": fmask, "lag": rng.choice([-1, 0, 0, 1, 2]),
+    return {"term_naz": rng.random() < 0.25, "N": N, "pmask": pmask, "fmask": fmask, "lag": rng.choice([-1, 0, 0, 1, 2]),
             "fallback_skip": rng.choice([0, 0, 0, 1, 3, 5]), "n_other": rng.choice([0, 1, 1, 2]),
             "fault": fault, "fault_at": rng.randint(0, N - 1) if fault else None,
             "yields": [rng.choice([0, 0, 1, 3, 10]) for _ in range(N + TAIL + 3)],
@@ -162,7 +163,8 @@ async def _drive(case: dict[str, Any], out: dict[str, Any]) -> None:
     if case["fault"] == "raise_primary":
         prx = _mk_faulty(prx, case["fault_at"])
     b = FormulaBuilder("t", Quantity)
-    b.push_metric("#1", prx, nones_are_zeros=False, fallback=fb)
+    # (a term may both have a fallback and count missing values as zero)
+    b.push_metric("#1", prx, nones_are_zeros=bool(case.get("term_naz")), fallback=fb)
     for i, oc in enumerate(ocs):
         b.push_oper("+")
         b.push_metric(f"#{i + 2}", oc.new_receiver(limit=200), nones_are_zeros=False)
@@ -356,6 +358,8 @@ def check(case: dict[str, Any], rec: Any) -> None:
         rec.bucket("primary-raises")
     if fault == "close_fallback":
         rec.bucket("fallback-closed")
+    if case.get("term_naz"):
+        rec.bucket("term-with-fallback-and-nones-are-zeros")
     out: dict[str, Any] = {}
     mon = LoopMonitor()
     if case.get("tier") == "B":
@@ -389,6 +393,13 @@ def check(case: dict[str, Any], rec: Any) -> None:
     recv = log.get("fallback_received", [])
     g = recv[0] if recv else None  # first fallback index the started fallback delivered
     window_end = None if f is None else (max(f + 1, g) if g is not None else total)
+    if f is not None and g is None and fault != "close_fallback" and case.get("tier") != "B" \
+            and N - f >= case["fallback_skip"] + abs(case["lag"]) + 8:
+        # "bounded start-up delay": the primary failed long before the end, the fallback stream kept delivering, and
+        # yet not a single fallback sample was ever read
+        rec.violation("fallback-never-read-although-the-primary-failed",
+                      {"first_invalid_primary": f, "rounds": N, "fallback_started": log.get("starts", 0),
+                       "fault": fault, "term_counts_missing_as_zero": bool(case.get("term_naz"))})
     by_index: dict[int, list[Any]] = {}
     for k, v in outs:
         by_index.setdefault(k, []).append(v)
@@ -443,12 +454,17 @@ def check(case: dict[str, Any], rec: Any) -> None:
                     rest //= 100
                 rec.count("outputs_decoded")
                 if any(o != k + 1 for o in others) or not ((p_valid(k) and term == 1000 + k) or
-                                                           (f_valid(k) and term == 2000 + k)):
+                                                           (f_valid(k) and term == 2000 + k) or
+                                                           (case.get("term_naz") and term == 0)):
                     rec.violation("post-fault-window-output-is-not-a-true-value-of-its-timestamp",
                                   {**w, "term": term, "decoded_others": others})
             continue
         v = vs[0]
         rec.count("outputs_decoded")
+        naz = bool(case.get("term_naz"))
+        if v is None and naz:
+            rec.violation("None-although-the-term-counts-missing-values-as-zero", w)
+            continue
         if v is None:
             if p_valid(k):
                 rec.violation("None-although-primary-valid", w)
@@ -475,7 +491,10 @@ def check(case: dict[str, Any], rec: Any) -> None:
             elif used_fallback:
                 recovered = True
         else:
-            if not f_valid(k):
+            if naz and term == 0 and (not f_valid(k) or in_window):
+                # nones_are_zeros term: with no valid source (or before the fallback is in step) it counts as 0
+                rec.bucket("missing-term-counted-as-zero")
+            elif not f_valid(k):
                 rec.violation("value-although-both-sources-invalid", {**w, "term": term})
             elif term != 2000 + k:
                 rec.violation("fallback-term-from-wrong-source-or-index", {**w, "term": term})
